@@ -18,6 +18,7 @@ from mc.runner import violation
 
 CONFIGS = ["expr_simp", "expr_simp_high_to_explicit", "expr_simp_explicit"]
 STEP_BUDGET = 20000
+NONTERM_CAP = 3
 
 _state = {}
 
@@ -271,6 +272,8 @@ def judge_fixpoint(e, cfg, case):
         return "crash", []       # crashes are the business of C01
     vs = []
     steps = st["counter"][0]
+    if steps > st.get("max_steps", 0):
+        st["max_steps"] = steps
     try:
         r2 = run_simp(cfg, r)
     except (Budget, RecursionError):
@@ -411,8 +414,14 @@ def shard_worker(args):
     sample = None
     seen_sigs = set()
     extra_inputs = []
+    nonterm = 0
+    skipped_after_nonterm = 0
     for i, e in enumerate(family_iter(fam, params)):
         if i % nsh != idx:
+            continue
+        if nonterm >= NONTERM_CAP:
+            # every further non-terminating case costs the whole step budget: the shard has reported enough
+            skipped_after_nonterm += 1
             continue
         n += 1
         if n % 20000 == 0:
@@ -427,6 +436,8 @@ def shard_worker(args):
                 s, v = judge_fixpoint(e, cfg, case)
                 if s == "changed":
                     changed = True
+                if s == "nonterm":
+                    nonterm += 1
             status[s] = status.get(s, 0) + 1
             for x in v:
                 if x["sig"] not in seen_sigs or len(vs) < 50:
@@ -443,8 +454,8 @@ def shard_worker(args):
             nt += 1
             if sample is None and i > 50:
                 sample = {"family": fam, "index": i, "expr": str(e)}
-    return {"n": n, "nt": nt, "status": status, "vs": vs, "sample": sample, "fired": dict(st["fired"]),
-            "rule_pairs_judged": len(st["judged"]), "rule_level_inconsistencies": st.get("rule_level_inconsistencies", 0),
+    return {"n": n, "nt": nt, "status": status, "skipped_after_nonterm": skipped_after_nonterm, "vs": vs, "sample": sample, "fired": dict(st["fired"]),
+            "max_steps": st.get("max_steps", 0), "rule_pairs_judged": len(st["judged"]), "rule_level_inconsistencies": st.get("rule_level_inconsistencies", 0),
             "rules": sorted(st["all_rules"])}
 
 
@@ -477,9 +488,11 @@ def run(ctx, mode):
         "distinct_nontrivial": sum(r["nt"] for r in res),
         "configurations": CONFIGS,
         "judgements_by_status": status,
+        "expressions_not_judged_after_%d_non_terminations_in_their_shard" % NONTERM_CAP: sum(r.get("skipped_after_nonterm", 0) for r in res),
         "per_family_expressions": per_family,
         "rules_fired_at_least": fired,
         "rules_never_fired": never,
+        "max_rule_applications_for_one_expression": max([r.get("max_steps", 0) for r in res] + [0]),
         "rule_level_rewrites_judged(max per worker)": max([r.get("rule_pairs_judged", 0) for r in res] + [0]),
         "rule_level_inconsistencies(max per worker)": max([r.get("rule_level_inconsistencies", 0) for r in res] + [0]),
         "samples": [r["sample"] for r in res if r["sample"]][:6],
